@@ -3,8 +3,11 @@ package msg
 import (
 	"bytes"
 	"encoding/json"
+	"errors"
 	"fmt"
 	"io"
+	"net/http"
+	"net/http/httptest"
 	"math"
 	"strconv"
 	"strings"
@@ -203,6 +206,67 @@ func checkLong(k *collector, lc LongCase) {
 	checkWire(k, ms, wire.String(), longReaders[lc.Reader], lc)
 }
 
+// SessCase: message A is sent through one Session whose writer fails (Fault: "" none, "flush" the header flush
+// fails, "write1"/"write2" its first/second Write fails), then message B through another Session on a healthy
+// writer (same goroutine). B's client must read exactly B - whatever became of A.
+type SessCase struct {
+	A, B  MsgSpec
+	Fault string `json:"fault"`
+}
+
+type sessWriter struct {
+	hdr         http.Header
+	body        bytes.Buffer
+	failFlush   bool
+	failWriteAt int
+	writes      int
+}
+
+var errSess = errors.New("scripted session writer failure")
+
+func (w *sessWriter) Header() http.Header { return w.hdr }
+func (w *sessWriter) WriteHeader(int)     {}
+func (w *sessWriter) Write(p []byte) (int, error) {
+	w.writes++
+	if w.writes == w.failWriteAt {
+		return 0, errSess
+	}
+	return w.body.Write(p)
+}
+func (w *sessWriter) FlushError() error {
+	if w.failFlush {
+		return errSess
+	}
+	return nil
+}
+
+func checkSess(k *collector, c SessCase) {
+	req := httptest.NewRequest(http.MethodGet, "/", http.NoBody)
+	wa := &sessWriter{hdr: http.Header{}, failFlush: c.Fault == "flush"}
+	switch c.Fault {
+	case "write1":
+		wa.failWriteAt = 1
+	case "write2":
+		wa.failWriteAt = 2
+	}
+	if sa, err := sse.Upgrade(wa, req); err == nil {
+		_ = sa.Send(c.A.Build())
+		_ = sa.Flush()
+	}
+	wb := &sessWriter{hdr: http.Header{}}
+	sb, err := sse.Upgrade(wb, req)
+	if err != nil {
+		k.fail("C02: Upgrade failed on a flushing writer", err.Error(), c)
+		return
+	}
+	if err := sb.Send(c.B.Build()); err != nil {
+		k.fail("C02: Send failed on a healthy writer", fmt.Sprintf("%+v: %v", c, err), c)
+		return
+	}
+	_ = sb.Flush()
+	checkWire(k, []MsgSpec{c.B}, wb.body.String(), nil, c)
+}
+
 // Hist is a history of operations on ONE Message value (op codes index histOps). The message is encoded at the
 // end only (and where the history says so), so that state kept between encodings is exercised too.
 type Hist struct {
@@ -319,7 +383,10 @@ func init() {
 		var str string
 		var lc LongCase
 		var h Hist
+		var sc SessCase
 		switch {
+		case json.Unmarshal(raw, &sc) == nil && (len(sc.B.Calls) > 0 || sc.B.HasID || sc.B.HasType):
+			checkSess(k, sc)
 		case json.Unmarshal(raw, &lc) == nil && lc.Reader != "":
 			checkLong(k, lc)
 		case json.Unmarshal(raw, &h) == nil && len(h.Ops) > 0:
@@ -502,11 +569,16 @@ var C02 = &sqrun.Check{ID: "C02", QuickBudget: 60, ThoroughBudget: 600,
 				checkSequence(k, []MsgSpec{plain, sp, plain})
 			}
 		})
+		// (8) through Sessions: A over a failing writer, then B over a healthy one
+		faults := []string{"", "flush", "write1", "write2"}
+		k.parallel(ns*ns*len(faults), func(i int) {
+			checkSess(k, SessCase{A: set[i%ns], B: set[i/ns%ns], Fault: faults[i/ns/ns]})
+		})
 		cov := ev.Coverage{"evaluations": k.cases.Load(), "distinct_nontrivial": k.nontriv.Load(), "exhaustive": k.exhaustive(),
 			"size_family_max_length": maxSize, "long_streams": len(longs), "one_message_histories": hists, "history_depth": hdepth,
 			"payload_strings": len(payloads), "field_strings": len(fields), "call_alphabet": nc, "message_set": ns,
 			"samples": []any{MsgSpec{Calls: []Call{{"data", []string{"a\rb", "id: z"}}}, ID: "x", HasID: true}, []MsgSpec{set[3], set[10]}},
-			"rule":    fmt.Sprintf("(1) every string of <= %d tokens over %q as data, comment, ID and type (where NewID/NewType accept it), alone and between plain neighbours; (2) every program of <= %d calls over a %d-call alphabet (AppendData with one/two arguments, AppendComment) on a 12-string representative set; (3) ID x Type over all %d single-line strings of <= 2 tokens x 7 Retry values; (4) every ordered pair (thorough: triple) of %d representative messages, concatenated; (5) every representative message and ordered pair followed by 0..%d padding bytes and %d plain messages (streams long enough to make the parser's buffer fill, shift and grow), read whole, byte by byte and in 61-byte chunks, all events compared after the stream has ended; (6) every history of <= %d operations from %q on ONE Message value, the result encoded between two plain neighbours; (7) data line, comment line, ID and type of every length 0..%d. Each wire text is decoded by the strict WHATWG reference and by sse.Read and compared with the expectation computed from the API calls (independent line splitter). Non-trivial = the expectation contains at least one event.", L, c02Tokens, depth, nc, nf, ns, maxPad, fill, hdepth, histOps, maxSize)}
+			"rule":    fmt.Sprintf("(1) every string of <= %d tokens over %q as data, comment, ID and type (where NewID/NewType accept it), alone and between plain neighbours; (2) every program of <= %d calls over a %d-call alphabet (AppendData with one/two arguments, AppendComment) on a 12-string representative set; (3) ID x Type over all %d single-line strings of <= 2 tokens x 7 Retry values; (4) every ordered pair (thorough: triple) of %d representative messages, concatenated; (5) every representative message and ordered pair followed by 0..%d padding bytes and %d plain messages (streams long enough to make the parser's buffer fill, shift and grow), read whole, byte by byte and in 61-byte chunks, all events compared after the stream has ended; (6) every history of <= %d operations from %q on ONE Message value, the result encoded between two plain neighbours; (7) data line, comment line, ID and type of every length 0..%d; (8) every ordered pair of representative messages sent through two Sessions, the first on a writer whose header flush / first / second Write fails, the second on a healthy one: the second client reads exactly the second message. Each wire text is decoded by the strict WHATWG reference and by sse.Read and compared with the expectation computed from the API calls (independent line splitter). Non-trivial = the expectation contains at least one event.", L, c02Tokens, depth, nc, nf, ns, maxPad, fill, hdepth, histOps, maxSize)}
 		return &sqrun.Outcome{Level: "exploration", Coverage: cov, Assumptions: []string{
 			"an ID containing NUL is encoded as given and ignored by conforming parsers (the rest of the event must be intact); this is the protocol's rule, not counted as 'ID altered'",
 			"go-sse's own parser dispatches an event also for a message that only sets an ID or a type (documented adaptation); the strict reference only for messages with data",
